@@ -255,7 +255,16 @@ class UdpInverterProtocol(InverterProtocol, asyncio.DatagramProtocol):
                 self.response_future.cancel()
 
     async def close(self):
-        self._close_transport()
+        if self._transport is None:
+            # nothing to close, no need to queue behind the requests waiting for the lock
+            return
+        # the socket may be in use by the request (of another caller) in flight, wait for it like the TCP variant
+        await self._ensure_lock().acquire()
+        try:
+            self._close_transport()
+        finally:
+            if self._lock and self._lock.locked():
+                self._lock.release()
 
 
 class TcpInverterProtocol(InverterProtocol, asyncio.Protocol):
